@@ -1,6 +1,6 @@
 (* C09 — subsets and cross-sections are faithful restrictions. Statements only. *)
 From Coq Require Import Sorting.Sorted Permutation.
-From Verif Require Import Base C02 C02_sup C09 C09_proofs C09_commute_proofs C09_edges C09_edge_table_proofs C03 C09_C03_proofs.
+From Verif Require Import Base C02 C02_sup C09 C09_proofs C09_commute_proofs C09_edges C09_edge_table_proofs C03 C09_C03_proofs C09_edge_data_proofs.
 
 (* face k of the subset is source face idx[k]: reading its row back through the recorded node
    indices gives the source row (same corners, same cyclic order and start, same padding) *)
@@ -108,3 +108,22 @@ Theorem C09_edge_selection_pipeline : forall m t idx f, std_table m t ->
                    nth_error (edges t) (Z.to_nat e) = Some (norm_pair q)).
 Proof. exact edge_selection_pipeline. Qed.
 Print Assumptions C09_edge_selection_pipeline.
+
+(* ---- edge-centred data stay on their physical edges ---- *)
+(* the data gathered with subgrid_edge_indices put at position k the source value of edge ei[k], and edge k of the table the
+   subset derives, read back through the recorded node indices, is that very source edge *)
+Theorem C09_edge_data_aligned : forall m T idx, std_table m T ->
+  Forall (fun i => 0 <= i < Z.of_nat (length T)) idx ->
+  forall (A : Type) (d : A) (data : list A) k e,
+  nth_error (c09_edge_indices (face_edges T m) idx) k = Some e ->
+  nth_error (c09_gather d data (c09_edge_indices (face_edges T m) idx)) k = Some (nth (Z.to_nat e) data d) /\
+  exists q, nth_error (edges (fst (c09_slice_faces T idx))) k = Some q /\
+            pmap (c09_back (c09_node_indices T idx)) q = nthP (edges T) (Z.to_nat e).
+Proof. intros m T idx H1 H2 A d data k e. exact (edge_data_aligned m T idx H1 H2 d data k e). Qed.
+Print Assumptions C09_edge_data_aligned.
+
+Theorem C09_edge_count : forall m T idx, std_table m T ->
+  Forall (fun i => 0 <= i < Z.of_nat (length T)) idx ->
+  length (edges (fst (c09_slice_faces T idx))) = length (c09_edge_indices (face_edges T m) idx).
+Proof. exact derived_edge_count. Qed.
+Print Assumptions C09_edge_count.
